@@ -22,7 +22,9 @@ ASSUMES = ['field patterns have no top-level alternation (the code anchors by st
 
 NAMES = ['id', 'idx', 'name', 'nam', 'a.b', 'axb', 'a+b', 'v(1)', 'c1', 'c2', 'c10', 'n*', 'total']
 VALS = [None, 0, 1, 2, 5, -3, 'x', 'yy', 'a b', 'é']
-PATS = ['id', 'idx?', 'nam', 'name', r'a.b', r'a\.b', r'c\d', r'c\d+', r'c(\d+)', r'(id|name)', r'.*', r'[a-c].*', 'total', 'zz', r'v\(1\)', r'n\*', r'a\+b']
+PATS = ['id', 'idx?', 'nam', 'name', r'a.b', r'a\.b', r'c\d', r'c\d+', r'c(\d+)', r'(id|name)', r'.*', r'[a-c].*', 'total', 'zz', r'v\(1\)', r'n\*', r'a\+b',
+        # alternations at the top level of the pattern: the whole name must match one alternative
+        'id|name', 'nam|total', r'c\d|id']
 
 
 def gen_table(rng, typed=False):
